@@ -50,7 +50,7 @@ func init() {
 		ID:        "C01",
 		Level:     "model_checking",
 		Technique: "stateless model checking of the real pipeline (controlled scheduler over instrumented code, fake Postgres, simulated node): all interleavings of task steps with head growth up to a preemption bound, all single transient faults, over a bounded-exhaustive family of chains x declaration shapes x batch x concurrency; oracle = independent projection of the chain",
-		Rule: "jobs = 7 declaration shapes (log / array-log / all-indexed log / log with string + bytes[] incl. empty values / tx / receipt / trace) x chain words over block kinds {e empty, a 1 tx 1 log, b decoys (other signature, wrong topic count, other address), c 2 tx 2 logs, d tx without logs} x start in {1, 3, head} x (batch,conc): " +
+		Rule: "jobs = 7 declaration shapes (log / array-log / all-indexed log / log with string + bytes[] incl. empty values / tx / receipt / trace; on a reduced product also: log restricted to two addresses by a multi-argument eq filter, trace with receipt fields) x chain words over block kinds {e empty, a 1 tx 1 log, b decoys (other signature, wrong topic count, other address), c 2 tx 2 logs, d tx without logs} x start in {1, 3, head} x (batch,conc): " +
 			"quick = all 27 words of length 3 over {e,a,b} with (1,1),(3,2) and two 5-letter words with all 20 pairs in 1..5 x 1..4; thorough = all words of length 2..4 over 5 kinds with 5 pairs and seven 5-letter words with all 20 pairs. " +
 			"Per job every schedule of {task thread stepping until the final head, environment thread revealing the last two blocks in two growth operations} with <= 1 deviation (a preemption at any JSON-RPC exchange or step boundary, or a reordering of load partitions; thorough: <= 2 deviations and every step-granular interleaving for free), " +
 			"and on fault jobs every single injected RPC/SQL fault (rpc error, transport error, SQL error, connection drop) at every I/O point; on lag jobs (batch >= 2) any one JSON-RPC exchange answered by a backend 1 or 2 blocks behind the announced head. An execution is non-trivial when at least one row was emitted; distinct = distinct (job, choice sequence).",
@@ -98,11 +98,25 @@ func c01Jobs(thorough bool) []c01Job {
 		add(ws, []uint64{1, 3, 0}, [][2]int{{1, 1}, {2, 1}, {3, 2}, {2, 3}, {5, 2}}, map[string]bool{"eab": true, "bae": true, "cdc": true, "aeca": true})
 		add([]string{"abcde", "ceeac", "eeeee", "cbadc", "dcbae", "ccccc", "aeaea"}, []uint64{1, 3, 0}, all, map[string]bool{"abcde": true, "ceeac": true})
 		addLag(&jobs, []string{"abcde", "ccccc", "cbadc", "aeaea"}, all)
+		for _, sh := range ExtraShapes {
+			for _, w := range []string{"abcde", "cbadc", "ccccc", "aeaea"} {
+				for _, bc := range all {
+					jobs = append(jobs, c01Job{Shape: sh, Word: w, Start: 1, Batch: bc[0], Conc: bc[1], Free: true})
+				}
+			}
+		}
 		return jobs
 	}
 	// quick: every 3-letter word over {empty, 1 log, decoys} with two (batch,conc) pairs; all 20 pairs on two longer words;
 	// single faults at every I/O point on a few jobs
 	addLag(&jobs, []string{"abcde", "ccccc"}, [][2]int{{2, 1}, {3, 1}, {5, 2}})
+	for _, sh := range ExtraShapes {
+		for _, w := range []string{"abcde", "cbadc"} {
+			for _, bc := range [][2]int{{1, 1}, {3, 2}, {5, 2}} {
+				jobs = append(jobs, c01Job{Shape: sh, Word: w, Start: 1, Batch: bc[0], Conc: bc[1]})
+			}
+		}
+	}
 	add(words("eab", 3), []uint64{1, 0}, [][2]int{{1, 1}, {3, 2}}, nil)
 	add([]string{"abcde", "ceeac"}, []uint64{1, 3, 0}, all, nil)
 	add([]string{"bae", "eab"}, []uint64{1}, [][2]int{{1, 1}, {3, 2}}, map[string]bool{"bae": true, "eab": true})
